@@ -378,3 +378,150 @@ def _step(st, limit):
     if isinstance(st, ast.With):
         return [Path(q.conds, [st] + q.stmts, q.exit, q.exit_node) for q in _paths(st.body, limit)]
     return [Path([], [st], "fall", None)]
+
+
+# ------------------------------------------------------------ decision tables
+
+def eval3(test, atom_eval):
+    """Three-valued evaluation of a condition: atom_eval(expr) -> True/False/None."""
+    if isinstance(test, ast.UnaryOp) and isinstance(test.op, ast.Not):
+        v = eval3(test.operand, atom_eval)
+        return None if v is None else (not v)
+    if isinstance(test, ast.BoolOp):
+        vals = [eval3(v, atom_eval) for v in test.values]
+        if isinstance(test.op, ast.And):
+            if any(v is False for v in vals):
+                return False
+            if all(v is True for v in vals):
+                return True
+            return None
+        if any(v is True for v in vals):
+            return True
+        if all(v is False for v in vals):
+            return False
+        return None
+    return atom_eval(test)
+
+
+def decision_table(stmts, atom_names, recognise, classify):
+    """For every assignment of the named atoms, the set of exit labels of the
+    paths feasible under it.
+
+    recognise(expr) -> (atom_name, polarity) | None  for atomic conditions
+    classify(path)  -> hashable label of the path's exit
+    Unrecognised atomic conditions are opaque (either way feasible); their
+    text is collected in `opaque`."""
+    import itertools
+    paths = enumerate_paths(stmts)
+    opaque = set()
+    table = {}
+    for values in itertools.product([True, False], repeat=len(atom_names)):
+        assign = dict(zip(atom_names, values))
+
+        def atom_eval(e):
+            r = recognise(e)
+            if r is None:
+                opaque.add(norm(e))
+                return None
+            name, pol = r
+            if name not in assign:
+                opaque.add(norm(e))
+                return None
+            return assign[name] if pol else (not assign[name])
+
+        labels = set()
+        for p in paths:
+            feasible = True
+            for c in p.conds:
+                if isinstance(c[0], str):
+                    continue  # loop / except markers: feasible either way
+                v = eval3(c[0], atom_eval)
+                if v is None:
+                    continue
+                if v != c[1]:
+                    feasible = False
+                    break
+            if feasible:
+                labels.add(classify(p))
+        table[values] = labels
+    return table, opaque
+
+
+def resolve_local(expr, func, depth=0):
+    """Substitute locals that are bound exactly once by a plain assignment."""
+    if depth > 4:
+        return expr
+    binds = {}
+    counts = {}
+    for n in walk_own(func.body):
+        if isinstance(n, ast.Assign) and len(n.targets) == 1 and isinstance(n.targets[0], ast.Name):
+            binds[n.targets[0].id] = n.value
+            counts[n.targets[0].id] = counts.get(n.targets[0].id, 0) + 1
+        elif isinstance(n, ast.Name) and isinstance(n.ctx, ast.Store):
+            counts[n.id] = counts.get(n.id, 0) + 0
+        elif isinstance(n, (ast.AugAssign, ast.For, ast.comprehension, ast.With, ast.NamedExpr)):
+            for x in ast.walk(n.target if hasattr(n, "target") else n):
+                if isinstance(x, ast.Name) and isinstance(x.ctx, ast.Store):
+                    counts[x.id] = counts.get(x.id, 0) + 2
+    params = {p.name for p in func.params}
+
+    class Sub(ast.NodeTransformer):
+        def visit_Name(self, node):
+            if isinstance(node.ctx, ast.Load) and node.id in binds and counts.get(node.id) == 1 and node.id not in params:
+                import copy
+                return resolve_local(copy.deepcopy(binds[node.id]), func, depth + 1)
+            return node
+    import copy
+    return Sub().visit(copy.deepcopy(expr))
+
+
+def inline_call(expr, func, prog, depth=0):
+    """If `expr` is `self.m(args)` / `m(args)` and m's body is a single
+    `return E`, return E with parameters substituted (repeat up to 3 levels).
+    Helper extraction thereby does not change what a rule sees."""
+    import copy
+    if depth > 3 or not isinstance(expr, ast.Call):
+        return expr
+    target = None
+    args = list(expr.args)
+    if isinstance(expr.func, ast.Attribute) and isinstance(expr.func.value, ast.Name) and func.cls is not None \
+            and expr.func.value.id == (func.self_param() or "self"):
+        got = func.cls.lookup(expr.func.attr)
+        if got and got[0] == "method":
+            target = got[1]
+            skip = 1
+    elif isinstance(expr.func, ast.Name):
+        r = prog.resolve_in(func, expr.func.id)
+        if r and r[0] == "func" and not r[1].decorators:
+            target = r[1]
+            skip = 0
+    if target is None or target is func:
+        return expr
+    body = [st for st in target.body if not (isinstance(st, ast.Expr) and isinstance(st.value, ast.Constant))]
+    if len(body) != 1 or not isinstance(body[0], ast.Return) or body[0].value is None:
+        return expr
+    params = [p for p in target.params][skip:]
+    if any(isinstance(a, ast.Starred) for a in args) or len(args) > len(params):
+        return expr
+    mapping = {}
+    for p, a in zip(params, args):
+        mapping[p.name] = a
+    for k in expr.keywords:
+        if k.arg is None:
+            return expr
+        mapping[k.arg] = k.value
+    for p in params:
+        if p.name not in mapping:
+            if p.default is None:
+                return expr
+            mapping[p.name] = p.default
+    if skip:
+        mapping[target.params[0].name] = expr.func.value
+
+    class Sub(ast.NodeTransformer):
+        def visit_Name(self, node):
+            if isinstance(node.ctx, ast.Load) and node.id in mapping:
+                return copy.deepcopy(mapping[node.id])
+            return node
+    new = Sub().visit(copy.deepcopy(body[0].value))
+    return inline_call(new, func, prog, depth + 1)
